@@ -6,6 +6,8 @@ CONSTANTS
   NoDupRead = FALSE
   LoseMinKey = FALSE
   EarlyClean = FALSE
+  WithExclusive = FALSE
+  ExclLe = FALSE
   WithAborts = TRUE
 INVARIANTS Serializable OutcomeTruthful RetainsOverlapping NoAbortedWrites
 PROPERTIES SnapshotStable AtomicCommit
